@@ -530,4 +530,12 @@ theorem charge_smul_power (c : K) (p : List K) (dt w : K) :
   simp only [Function.comp]
   ring
 
+theorem charge_add_w (p : List K) (dt w₁ w₂ : K) :
+    charge p dt (w₁ + w₂) = vadd (charge p dt w₁) (charge p dt w₂) := by
+  induction p with
+  | nil => simp [charge, vadd]
+  | cons x xs ih =>
+    simp only [charge, vadd, List.map_cons, List.zipWith_cons_cons] at ih ⊢
+    rw [ih]; congr 1; ring
+
 end HcipyVerif.Detector
